@@ -50,6 +50,7 @@ class Scenario:
         self.stage = stage
         self.sub_log: list = []  # messages delivered to the test subscriber: (virtual time, conn state at delivery)
         self.cancelled_by_harness: set = set()
+        self.probe_raise = False  # the state subscriber raises (an application bug): asyncio hands the exception to connection_lost
         self.pending_evs: list = []  # device events making up the pending chunk
         self.chunks: list = []  # (list of device events, connection state before delivery)
         self.subscribe_probe()
@@ -110,6 +111,8 @@ class Scenario:
 
         def on_msg(_m):
             self.sub_log.append((self.loop.time(), conn.connection_state))
+            if self.probe_raise:
+                raise ValueError("bug in a subscriber callback")
 
         conn.add_message_callback(on_msg, (SensorStateResponse,))
 
